@@ -68,8 +68,17 @@ STATES = [
     ("zeroedcls", ["th1"], {"frames": TF3, "init": "free", "cls": "zeroed", "k": 1,
                             "setup": [["change", 0, -1, 0, 2, 0], ["getfor", 1, "HO", 2, 0]]},
      [[DRAIN, ["get", 0, 2, 0, -1], ["get", 0, 0, 0, -1], ["change", -1, 1, 0, 2, 0]], [["put", 0, 2, -1], ["put", 0, 2, 0], ["get", 0, 2, 0, -1], DRAIN]]),
+    ("offlined", None, {"frames": TF3, "init": "free", "cls": "simple", "k": 1,
+                        "setup": [["getfor", 1, 0, 0, -1], ["change", 2, -1, 0, -1, 2]]},
+     [[["change", -1, -1, 0, -1, 1], ["change", 2, -1, 0, 0, 1], ["change", -1, 1, 0, 1, 1], ["change", 1, -1, 0, -1, 2]],
+      [G0, GH, GHN, PUT, PUTS, T(0, "TF+TF+5"), DRAIN, ["get", 0, 1, 0, -1]]]),
+    ("offlined2", None, {"frames": TF3, "init": "free", "cls": "simple", "k": 1, "setup": [["change", 2, -1, 0, -1, 2]]},
+     [[["change", -1, -1, 0, -1, 1], ["change", -1, 1, 0, -1, 1], ["change", 2, -1, 0, -1, 1], ["change", -1, -1, 0, 0, 1]],
+      [GH, GHN, G0, G0N, ["get", 0, 1, 0, -1], DRAIN]]),
     ("offline", None, {"frames": TF3, "init": "free", "cls": "simple", "k": 1, "setup": [["getfor", 1, 0, 0, -1]]},
-     [[["change", 1, -1, 0, -1, 2], ["change", -1, 1, "TF", 0, 0], ["change", 0, -1, 0, 1, 0]], [G0, GHN, PUT, T(0, "TF+5"), DRAIN]]),
+     [[["change", 1, -1, 0, -1, 2], ["change", -1, 1, "TF", 0, 0], ["change", 0, -1, 0, 1, 0], ["change", 1, -1, 0, 1, 0],
+       ["change", -1, 0, 0, 1, 0]],
+      [G0, G0N, GHN, PUT, T(0, "TF+5"), T(0, 5), ["get", 0, 0, -1, "TF+9"], DRAIN]]),
 ]
 
 
@@ -80,12 +89,14 @@ def overlap(a, b):
     return False
 
 
-def scenarios(geo, with_triples=False, with_known=False):
+def scenarios(geo, with_triples=False, with_known=False, only=None):
     """with_known: include the pairs of two partial frees of one whole huge frame (trigger of known finding KF1,
     already covered by scenario L5; every failing schedule costs a diagnosis run)"""
     out = []
     for name, geos, base, ops in STATES:
         if geos and geo not in geos:
+            continue
+        if only and name not in only:
             continue
         a_ops, b_ops = ops[0], ops[1]
         for i, a in enumerate(a_ops):
